@@ -3,10 +3,12 @@
 package main
 
 import (
+	"encoding/hex"
 	"encoding/json"
 	"flag"
 	"fmt"
 	"os"
+	"os/exec"
 	"path/filepath"
 	"sort"
 	"strings"
@@ -51,7 +53,34 @@ func genHistory(r *vh.Rng, caching bool, maxOps int) *hist {
 		o := h.genOp(r, &name)
 		h.exec(o, i == n-1 || r.Chance(0.12))
 	}
+	// drain the pool with plain creates until one allocates: whatever sync.Pool still holds is
+	// handed out now, so a node that was pooled twice, or pooled while live, shows up as aliasing
+	if caching && r.Chance(0.5) {
+		for k := len(h.released) + 2; k > 0 && h.fail == ""; k-- {
+			before := idr.VerifNodeIDCounter()
+			name++
+			h.exec(opDesc{Op: "create", Kind: "node", N: name}, k == 1)
+			if idr.VerifNodeIDCounter() != before {
+				break
+			}
+		}
+	}
 	return h
+}
+
+// drainPool takes nodes out of the pool until a create has to allocate (the ID counter moves
+// only when a node is reset, and a pooled node was reset when it was put there).
+func drainPool(limit int) []*idr.Node {
+	var out []*idr.Node
+	for i := 0; i < limit; i++ {
+		before := idr.VerifNodeIDCounter()
+		n := idr.CreateNode(idr.DocumentNode, "")
+		if idr.VerifNodeIDCounter() != before {
+			break
+		}
+		out = append(out, n)
+	}
+	return out
 }
 
 // shrink deletes operations greedily while the history still fails (any oracle clause).
@@ -153,67 +182,172 @@ func misuseScripts(sum *vh.Summary, cw *vh.CaseWriter) {
 
 // ---- trees handed out by the seven readers ------------------------------------------------------
 
+// readerCase is the replayable description of one audited transform.
+type readerCase struct {
+	Kind     string  `json:"kind"`
+	Format   string  `json:"format"`
+	Schema   string  `json:"schema"`
+	InputHex string  `json:"input_hex"`
+	Drains   []int   `json:"pool_audits_after_reads"` // record indices after which the pool was drained
+}
+
+// auditTransform runs one transform through the public API, audits every tree it hands out
+// (RawRecord().Raw().(*idr.Node), from its root) and what the node pool holds between records
+// (after the reads listed in drains) and at the end.
+func auditTransform(sum *vh.Summary, cw *vh.CaseWriter, format, schema string, in []byte, kind string, drains map[int]bool) {
+	s, err := omniparser.NewSchema("fx-"+format, strings.NewReader(schema))
+	if err != nil {
+		sum.Fail("fixture schema for "+format+" rejected by NewSchema", map[string]string{"format": format}, err.Error())
+		return
+	}
+	t, err := s.NewTransform("in", strings.NewReader(string(in)), &transformctx.Ctx{})
+	if err != nil {
+		return
+	}
+	var dl []int
+	for k := range drains {
+		dl = append(dl, k)
+	}
+	sort.Ints(dl)
+	rc := readerCase{Kind: "reader", Format: format, Schema: schema, InputHex: fmt.Sprintf("%x", in), Drains: dl}
+	if progressFile != "" {
+		pb, _ := json.Marshal(map[string]interface{}{"case": rc})
+		_ = os.WriteFile(progressFile, pb, 0o644)
+	}
+	idOwner := map[int64]*idr.Node{}
+	var lastTree []*idr.Node
+	ended := false
+	poolAudit := func(when string) {
+		// what the pool holds now: no node twice (double release), none that the tree just
+		// handed out still reaches (released while live)
+		seen := map[*idr.Node]bool{}
+		live := map[*idr.Node]bool{}
+		if !ended {
+			for _, x := range lastTree {
+				live[x] = true
+			}
+		}
+		for _, x := range drainPool(100000) {
+			if seen[x] {
+				sum.Fail("the "+format+" reader released a node twice: sync.Pool handed the same node out twice ("+when+")", rc, nil)
+				return
+			}
+			seen[x] = true
+			if live[x] {
+				sum.Fail("the "+format+" reader released a node that the tree it handed out still reaches ("+when+")", rc, nil)
+				return
+			}
+		}
+		sum.Hist("reader-pool-audit")
+	}
+	for reads := 0; reads < 40; reads++ {
+		_, err := t.Read()
+		if err != nil {
+			if errs.IsErrTransformFailed(err) {
+				continue
+			}
+			ended = true
+			break // io.EOF or another terminal error
+		}
+		raw, err := t.RawRecord()
+		if err != nil {
+			continue
+		}
+		n, ok := raw.Raw().(*idr.Node)
+		if !ok || n == nil {
+			continue
+		}
+		root := vh.Root(n)
+		nodes, bad := auditTree(root, 100000)
+		for _, x := range nodes {
+			if o, seen := idOwner[x.ID]; seen && o != x && bad == "" {
+				bad = fmt.Sprintf("ID %d seen on two different nodes of one transform", x.ID)
+			}
+			idOwner[x.ID] = x
+		}
+		sum.Count(fmt.Sprintf("%s|%x|%d", format, in, reads), false)
+		sum.Hist("reader-tree:" + format)
+		sum.Hist("reader-input:" + kind)
+		if bad != "" {
+			sum.Fail(fmt.Sprintf("tree handed out by the %s reader (record %d) is not sound: %s", format, reads, bad), rc, nil)
+			continue
+		}
+		lab := map[*idr.Node]int{}
+		for i, x := range nodes {
+			lab[x] = i + 1
+		}
+		var recs []string
+		for _, x := range nodes {
+			r := rec{par: lab[x.Parent], first: lab[x.FirstChild], last: lab[x.LastChild], prev: lab[x.PrevSibling],
+				next: lab[x.NextSibling], ty: int(x.Type), data: x.Data, fs: fsTerm(x)}
+			recs = append(recs, r.coq())
+		}
+		cw.Add(fmt.Sprintf("TCase (mkTCase %s %s)", vh.CoqList(recs), vh.CoqTree(root)),
+			map[string]interface{}{"kind": "reader-tree", "format": format, "schema": schema, "input_hex": rc.InputHex, "record_index": reads})
+		lastTree = nodes
+		if drains[reads] {
+			poolAudit(fmt.Sprintf("after record %d", reads))
+		}
+	}
+	poolAudit("at the end")
+}
+
+// progressFile, when set, receives the transform about to be audited (see runLate).
+var progressFile string
+
+// runLate runs the readers / misuse scripts / race part in a child process and merges what it
+// found.  If the child dies (the Go runtime cannot recover from a stack overflow), the
+// transform it was auditing is reported as the failing input.
+func runLate(o *vh.Opts, sum *vh.Summary, cw *vh.CaseWriter) {
+	dir := filepath.Join(o.Out, "late")
+	_ = os.MkdirAll(dir, 0o755)
+	cmd := exec.Command(os.Args[0], "-part", "late", "-seed", fmt.Sprint(o.Seed), "-tier", o.Tier, "-out", dir)
+	out, err := cmd.CombinedOutput()
+	b, rerr := os.ReadFile(filepath.Join(dir, "summary.json"))
+	var child vh.Summary
+	if err != nil || rerr != nil || json.Unmarshal(b, &child) != nil {
+		var body struct {
+			Case readerCase `json:"case"`
+		}
+		cb, _ := os.ReadFile(filepath.Join(dir, "current.json"))
+		_ = json.Unmarshal(cb, &body)
+		tail := string(out)
+		if len(tail) > 600 {
+			tail = tail[:600]
+		}
+		if body.Case.Kind == "reader" {
+			sum.Fail("the process died with a fatal runtime error while the "+body.Case.Format+" reader handled this input (a tree it built or released is not sound)", body.Case, tail)
+		} else {
+			sum.Fail("the process died with a fatal runtime error in the misuse / racing part", map[string]interface{}{"kind": "race", "seed": o.Seed}, tail)
+		}
+		return
+	}
+	sum.Evaluations += child.Evaluations
+	for k, v := range child.Histogram {
+		sum.Histogram[k] += v
+	}
+	for k, v := range child.Extra {
+		sum.Extra[k] = v
+	}
+	sum.Failures = append(sum.Failures, child.Failures...)
+	cw.Flush()
+	for _, f := range child.CaseFiles {
+		cw.Files = append(cw.Files, filepath.Join("late", f))
+	}
+}
+
 func readerTrees(r *vh.Rng, sum *vh.Summary, cw *vh.CaseWriter, perFormat int) {
 	idr.VerifResetNodePool()
 	for _, fx := range vh.Fixtures() {
-		s, err := omniparser.NewSchema("fx-"+fx.Format, strings.NewReader(fx.Schema))
-		if err != nil {
-			sum.Fail("fixture schema for "+fx.Format+" rejected by NewSchema", map[string]string{"format": fx.Format}, err.Error())
-			continue
-		}
 		for k := 0; k < perFormat; k++ {
 			in, kind := vh.Mutate(r, fx.Gen(r, r.Between(1, 6)))
-			t, err := s.NewTransform("in", strings.NewReader(string(in)), &transformctx.Ctx{})
-			if err != nil {
-				continue
+			drains := map[int]bool{}
+			for i := 0; i < 8; i++ {
+				if r.Chance(0.25) {
+					drains[i] = true
+				}
 			}
-			idOwner := map[int64]*idr.Node{}
-			for reads := 0; reads < 40; reads++ {
-				_, err := t.Read()
-				if err != nil {
-					if errs.IsErrTransformFailed(err) {
-						continue
-					}
-					break // io.EOF or another terminal error
-				}
-				raw, err := t.RawRecord()
-				if err != nil {
-					continue
-				}
-				n, ok := raw.Raw().(*idr.Node)
-				if !ok || n == nil {
-					continue
-				}
-				desc := map[string]interface{}{"kind": "reader-tree", "format": fx.Format, "schema": fx.Schema,
-					"input_hex": fmt.Sprintf("%x", in), "record_index": reads}
-				root := vh.Root(n)
-				nodes, bad := auditTree(root, 100000)
-				for _, x := range nodes {
-					if o, seen := idOwner[x.ID]; seen && o != x && bad == "" {
-						bad = fmt.Sprintf("ID %d seen on two different nodes of one transform", x.ID)
-					}
-					idOwner[x.ID] = x
-				}
-				sum.Count(fmt.Sprintf("%s|%x|%d", fx.Format, in, reads), false)
-				sum.Hist("reader-tree:" + fx.Format)
-				sum.Hist("reader-input:" + kind)
-				if bad != "" {
-					sum.Fail("tree handed out by the "+fx.Format+" reader is not sound: "+bad, desc, nil)
-					continue
-				}
-				lab := map[*idr.Node]int{}
-				for i, x := range nodes {
-					lab[x] = i + 1
-				}
-				var recs []string
-				for i, x := range nodes {
-					rc := rec{par: lab[x.Parent], first: lab[x.FirstChild], last: lab[x.LastChild], prev: lab[x.PrevSibling],
-						next: lab[x.NextSibling], ty: int(x.Type), data: x.Data, fs: fsTerm(x)}
-					_ = i
-					recs = append(recs, rc.coq())
-				}
-				cw.Add(fmt.Sprintf("TCase (mkTCase %s %s)", vh.CoqList(recs), vh.CoqTree(root)), desc)
-			}
+			auditTransform(sum, cw, fx.Format, fx.Schema, in, kind, drains)
 		}
 	}
 }
@@ -295,6 +429,17 @@ func raceReplaySeed(p string) (int64, bool) {
 	return body.Case.Seed, true
 }
 
+func readerReplay(p string) (readerCase, bool) {
+	var body struct {
+		Case readerCase `json:"case"`
+	}
+	b, err := os.ReadFile(p)
+	if err != nil || json.Unmarshal(b, &body) != nil || body.Case.Kind != "reader" {
+		return readerCase{}, false
+	}
+	return body.Case, true
+}
+
 func loadCases(o *vh.Opts) (replay []histCase, corpus []histCase) {
 	read := func(p string) (histCase, bool) {
 		var body struct {
@@ -325,8 +470,12 @@ func loadCases(o *vh.Opts) (replay []histCase, corpus []histCase) {
 
 func main() {
 	raceOnly := flag.Bool("raceonly", false, "run only the racing-acquisitions part (usable under go run -race)")
+	part := flag.String("part", "", "internal: 'late' runs the readers / misuse scripts / race part in a child process")
 	o := vh.ParseOpts()
 	r := vh.NewRng(o.Seed)
+	if *part == "late" {
+		r = vh.NewRng(o.Seed + 7919)
+	}
 	sum := vh.NewSummary("C12", o,
 		"operation histories (CreateNode/CreateXMLNode/CreateJSONNode, AddChild, RemoveAndReleaseTree) on the real idr API with pooling on and off, "+
 			"plus trees handed out by the seven readers; non-trivial = the history contains a removal followed by a creation that got a pooled node back; "+
@@ -359,7 +508,35 @@ func main() {
 	if *raceOnly {
 		runRace()
 	}
+	if *part == "late" {
+		// child process: a broken node API can make the readers build cyclic trees on which the
+		// library recurses until the Go runtime kills the process; the parent then reports the
+		// transform named in current.json
+		progressFile = filepath.Join(o.Out, "current.json")
+		readerTrees(r, sum, cw, o.Count(12, 400))
+		progressFile = ""
+		misuseScripts(sum, cw)
+		runRace()
+		cw.Flush()
+		sum.CaseFiles = cw.Files
+		sum.Write(o)
+		return
+	}
 	if o.Replay != "" {
+		if rc, ok := readerReplay(o.Replay); ok {
+			// replay of a reader failure: that transform only
+			in, _ := hex.DecodeString(rc.InputHex)
+			drains := map[int]bool{}
+			for _, k := range rc.Drains {
+				drains[k] = true
+			}
+			idr.VerifResetNodePool()
+			auditTransform(sum, cw, rc.Format, rc.Schema, in, "replay", drains)
+			cw.Flush()
+			sum.CaseFiles = cw.Files
+			sum.Write(o)
+			return
+		}
 		if sd, ok := raceReplaySeed(o.Replay); ok {
 			// replay of a racing-acquisitions failure: that part only, same seed
 			o.Seed = sd
@@ -390,12 +567,9 @@ func main() {
 			finishHist(sum, cw, genHistory(r, caching, 80), "generated", c < modelled)
 		}
 		if len(sum.Failures) == 0 {
-			// with the node API already shown broken, the readers and the racing goroutines could
-			// build cyclic structures on which recycle recurses without end; the verdict is in
-			readerTrees(r, sum, cw, o.Count(12, 400))
-			misuseScripts(sum, cw)
-			runRace()
+			runLate(o, sum, cw)
 		} else {
+			// with the node API already shown broken the verdict is in
 			sum.Hist("readers-and-race-skipped-after-history-failure")
 		}
 	}
